@@ -896,6 +896,125 @@ theorem zero_tol_offsite (d : K) (s : Sys K) (p : V3 K) (scale : Bool) (kw : Kw 
 
 end field
 
+/-! ### scales: the site search contains no absolute length -/
+
+section scale
+variable {K : Type} [Field K] [LinearOrder K] [IsStrictOrderedRing K]
+
+/-- the cell vectors scaled by `c`. -/
+def scaleM (c : K) (m : M3 K) : M3 K := ⟨V3.smul c m.r0, V3.smul c m.r1, V3.smul c m.r2⟩
+
+/-- a system with every length (cell vectors, origin, atom positions) multiplied by `c`. -/
+def Sys.scaled (c : K) (s : Sys K) : Sys K :=
+  { s with box := ⟨scaleM c s.box.vects, V3.smul c s.box.origin⟩,
+           atoms := s.atoms.map fun a => { a with pos := V3.smul c a.pos } }
+
+theorem normSq_smul (c : K) (v : V3 K) : V3.normSq (V3.smul c v) = c * c * V3.normSq v := by
+  simp only [V3.normSq, V3.dot, V3.smul]; ring
+
+theorem shiftBy_scale (c : K) (m : M3 K) (d : V3 K) (sh : Int × Int × Int) :
+    shiftBy (scaleM c m) (V3.smul c d) sh = V3.smul c (shiftBy m d sh) := by
+  simp only [shiftBy, scaleM, V3.smul]
+  ext <;> simp only [] <;> ring
+
+theorem dvectStep_scale (c : K) (hc : 0 < c) (m : M3 K) (d0 d : V3 K) (sh : Int × Int × Int) :
+    dvectStep (scaleM c m) (V3.smul c d0) (V3.smul c d) sh = V3.smul c (dvectStep m d0 d sh) := by
+  have hcc : 0 < c * c := mul_pos hc hc
+  simp only [dvectStep, shiftBy_scale, normSq_smul]
+  by_cases h : V3.normSq (shiftBy m d0 sh) < V3.normSq d
+  · rw [if_pos h, if_pos (mul_lt_mul_of_pos_left h hcc)]
+  · rw [if_neg h, if_neg (fun h' => h (lt_of_mul_lt_mul_left h' (le_of_lt hcc)))]
+
+theorem fold_scale (c : K) (hc : 0 < c) (m : M3 K) (d0 : V3 K) (l : List (Int × Int × Int)) (d : V3 K) :
+    l.foldl (dvectStep (scaleM c m) (V3.smul c d0)) (V3.smul c d) = V3.smul c (l.foldl (dvectStep m d0) d) := by
+  induction l generalizing d with
+  | nil => rfl
+  | cons sh t ih => simp only [List.foldl_cons, dvectStep_scale c hc, ih]
+
+theorem dvect_scale (c : K) (hc : 0 < c) (m : M3 K) (px py pz : Bool) (p q : V3 K) :
+    dvect (scaleM c m) px py pz (V3.smul c p) (V3.smul c q) = V3.smul c (dvect m px py pz p q) := by
+  have hsub : V3.smul c q - V3.smul c p = V3.smul c (q - p) := by
+    show V3.sub _ _ = V3.smul c (V3.sub q p)
+    simp only [V3.sub, V3.smul]; ext <;> simp only [] <;> ring
+  simp only [dvect, hsub, fold_scale c hc]
+
+/-- **no hidden length in the site search**: with the cell, the atoms, the requested position and the
+    tolerance all multiplied by the same `c > 0`, every atom is matched or not exactly as before. -/
+theorem within_scale (c : K) (hc : 0 < c) (s : Sys K) (p : V3 K) (atol : K) (a : Atom K) :
+    within (s.scaled c) (V3.smul c p) (c * atol) { a with pos := V3.smul c a.pos } = within s p atol a := by
+  have hcc : 0 < c * c := mul_pos hc hc
+  have hd : dist2 (s.scaled c) (V3.smul c p) { a with pos := V3.smul c a.pos } = c * c * dist2 s p a := by
+    simp only [dist2, Sys.scaled, dvect_scale c hc, normSq_smul]
+  have h1 : (c * c * dist2 s p a = 0) ↔ dist2 s p a = 0 := by
+    constructor
+    · intro h; rcases mul_eq_zero.mp h with h | h
+      · exact absurd h (ne_of_gt hcc)
+      · exact h
+    · intro h; rw [h, mul_zero]
+  have h2 : (c * atol < 0) ↔ atol < 0 := by
+    constructor
+    · intro h; by_contra hn; exact absurd h (not_lt.mpr (mul_nonneg (le_of_lt hc) (not_lt.mp hn)))
+    · intro h; exact mul_neg_of_pos_of_neg hc h
+  have h3 : (c * atol * (c * atol) < c * c * dist2 s p a) ↔ atol * atol < dist2 s p a := by
+    have : c * atol * (c * atol) = c * c * (atol * atol) := by ring
+    rw [this]
+    constructor
+    · intro h; exact lt_of_mul_lt_mul_left h (le_of_lt hcc)
+    · intro h; exact mul_lt_mul_of_pos_left h hcc
+  simp only [within, hd, h1, h2, h3]
+
+theorem siteMatches_scale (c : K) (hc : 0 < c) (s : Sys K) (p : V3 K) (atol : K) :
+    siteMatches (s.scaled c) (V3.smul c p) (c * atol) = siteMatches s p atol := by
+  simp only [siteMatches]
+  have hl : (s.scaled c).atoms.length = s.atoms.length := by simp [Sys.scaled]
+  rw [hl]
+  apply List.filter_congr
+  intro i _
+  have : (s.scaled c).atoms[i]? = (s.atoms[i]?).map fun a => { a with pos := V3.smul c a.pos } := by
+    simp [Sys.scaled]
+  rw [this]
+  cases s.atoms[i]? with
+  | none => rfl
+  | some a => simp only [Option.map_some]; exact within_scale c hc s p atol a
+
+
+theorem toCart_scaled_rel (c : K) (s : Sys K) (p : V3 K) :
+    toCart (s.scaled c) true p = V3.smul c (toCart s true p) := by
+  simp only [toCart, if_true, Sys.scaled, Box.relToCart, M3.vecMul, scaleM, V3.smul]
+  ext <;> simp only [v3_add_x, v3_add_y, v3_add_z] <;> ring
+
+/-- **the site search knows no absolute length.**  Multiply the cell, its origin, every atom position and
+    the tolerance by the same `c > 0`: a Cartesian position multiplied by `c`, or the SAME box-relative
+    position, resolves to the same site (or is refused alike), and an interstitial site is free or
+    occupied alike.  (The only absolute length of `point.py` is the documented default tolerance, which
+    enters through `effAtol` alone.) -/
+theorem search_scale_invariant (c : K) (hc : 0 < c) (s : Sys K) (p : V3 K) (ptd : Option Int) (atol : K) :
+    resolveSite (s.scaled c) (some (V3.smul c p)) ptd false (c * atol) = resolveSite s (some p) ptd false atol ∧
+    resolveSite (s.scaled c) (some p) ptd true (c * atol) = resolveSite s (some p) ptd true atol ∧
+    resolveSite (s.scaled c) none ptd false (c * atol) = resolveSite s none ptd false atol ∧
+    siteMatches (s.scaled c) (toCart (s.scaled c) false (V3.smul c p)) (c * atol) = siteMatches s (toCart s false p) atol ∧
+    siteMatches (s.scaled c) (toCart (s.scaled c) true p) (c * atol) = siteMatches s (toCart s true p) atol := by
+  have hl : (s.scaled c).atoms.length = s.atoms.length := by simp [Sys.scaled]
+  have h1 : siteMatches (s.scaled c) (toCart (s.scaled c) false (V3.smul c p)) (c * atol) =
+      siteMatches s (toCart s false p) atol := by
+    simpa [toCart] using siteMatches_scale c hc s p atol
+  have h2 : siteMatches (s.scaled c) (toCart (s.scaled c) true p) (c * atol) =
+      siteMatches s (toCart s true p) atol := by
+    rw [toCart_scaled_rel]; exact siteMatches_scale c hc s _ atol
+  refine ⟨?_, ?_, ?_, h1, h2⟩
+  · cases ptd with
+    | some k => rfl
+    | none => simp only [resolveSite, h1]
+  · cases ptd with
+    | some k => rfl
+    | none => simp only [resolveSite, h2]
+  · cases ptd with
+    | some k => simp only [resolveSite, hl]
+    | none => rfl
+
+end scale
+
+
 /-! ### non-vacuity: concrete runs of the model at `K := Rat` -/
 
 /-- cubic cell of edge 4 at origin (1,0,0), periodic along x and y only, two atoms, one extra property. -/
@@ -971,6 +1090,12 @@ example : resolveSite exSys (some ⟨-3, 0, 0⟩) none false (1/100) = .ok 0 :=
         subst this
         decide +kernel
       · simp [exSys] at hb)).1
+
+-- non-vacuity: `exSys` in units 1024 times smaller; 1/128 off atom 0, tolerance tie / just below
+example : resolveSite (exSys.scaled (1/1024)) (some (V3.smul (1/1024) ⟨1 + 1/128, 0, 0⟩)) none false ((1/1024) * (1/128)) = .ok 0 := by
+  decide +kernel
+example : resolveSite (exSys.scaled (1/1024)) (some (V3.smul (1/1024) ⟨1 + 1/128, 0, 0⟩)) none false ((1/1024) * (1/256)) = .error .value := by
+  decide +kernel
 
 end Atomman.C15
 
